@@ -277,14 +277,6 @@ Proof.
 Qed.
 
 (** ---- XRANGE / XREVRANGE ---- *)
-(** the class of inputs on which StreamData::range is wrong (F-15a): the end bound is
-    below every entry while the start bound does not exclude the first entry *)
-Definition known_range_defect (es : list sentry) (st en : sid) : bool :=
-  match es with
-  | e :: _ => sid_ltb en (fst e) && sid_leb st (fst e)
-  | [] => false
-  end.
-
 Definition range_spec (es : list sentry) (st en : sid) (count : option Z) (reverse : bool) : list sentry :=
   let sel := filter (in_range st en) es in
   take_count count (if reverse then rev sel else sel).
@@ -377,90 +369,47 @@ Proof.
     symmetry. exact Hin.
 Qed.
 
-Lemma known_defect_cnt es st en : sorted es -> es <> [] ->
-  cnt (p_le en) es = 0 -> known_range_defect es st en = negb (0 <? cnt (p_lt st) es).
+Lemma range_end_excl_spec es en : sorted es -> range_end_excl es en = cnt (p_le en) es.
 Proof.
-  intros Hs Hne Hm. destruct es as [|e es]; [congruence|]. cbn [known_range_defect].
-  apply sorted_cons_inv in Hs as [Hs He].
-  rewrite cnt_cons in Hm. unfold p_le at 1 in Hm. pose proof (cnt_nonneg (p_le en) es).
-  destruct (sid_leb (fst e) en) eqn:E1; [lia|]. apply sid_leb_nle in E1.
-  assert (sid_ltb en (fst e) = true) as -> by (apply sid_ltb_lt; assumption). cbn [andb].
-  rewrite cnt_cons. unfold p_lt at 1. pose proof (cnt_nonneg (p_lt st) es).
-  destruct (sid_ltb (fst e) st) eqn:E2.
-  - apply sid_ltb_lt in E2. assert (sid_leb st (fst e) = false) as -> by (apply sid_leb_nle; assumption).
-    symmetry. apply Bool.negb_false_iff. apply Z.ltb_lt. lia.
-  - apply sid_ltb_nlt in E2. assert (sid_leb st (fst e) = true) as -> by (apply sid_leb_le; assumption).
-    rewrite cnt_zero_of_gt; [reflexivity|].
-    eapply Forall_impl; [|exact He]. intros y Hy. unfold p_lt. apply sid_ltb_nlt. left.
-    eapply sid_le_lt_trans; eassumption.
+  intros Hs. unfold range_end_excl. rewrite (bsearch_spec en es Hs), (cnt_le_lt en es Hs).
+  destruct (has_id en es); lia.
+Qed.
+Lemma take_count_nil {A} count : take_count count (@nil A) = [].
+Proof.
+  destruct count as [c|]; [|reflexivity]. cbn [take_count]. unfold ztake, zfirstn.
+  destruct (len (@nil A) <=? c); [reflexivity|]. destruct (Z.to_nat c); reflexivity.
 Qed.
 
-Lemma range_end_idx_spec es en : sorted es ->
-  range_end_idx es en = if 0 <? cnt (p_le en) es then cnt (p_le en) es - 1 else 0.
-Proof.
-  intros Hs. unfold range_end_idx. rewrite (bsearch_spec en es Hs), (cnt_le_lt en es Hs).
-  pose proof (cnt_nonneg (p_lt en) es). destruct (has_id en es).
-  - replace (0 <? cnt (p_lt en) es + 1) with true by lia. lia.
-  - rewrite Z.add_0_r. reflexivity.
-Qed.
-
+(** XRANGE / XREVRANGE after the repair dc07967: exactly the present entries within the
+    bounds, for ALL bounds *)
 Theorem range_correct es st en count reverse : sorted es ->
-  known_range_defect es st en = false ->
   st_range es st en count reverse = range_spec es st en count reverse.
 Proof.
-  intros Hs Hk. unfold st_range, range_spec. f_equal.
-  assert (Hsel : (let si := range_start_idx es st in
-                  let hi := Z.min (range_end_idx es en) (Z.max (len es - 1) 0) in
-                  if hi <? si then [] else zfirstn (hi - si + 1) (zskipn si es)) = filter (in_range st en) es).
-  { cbn zeta. unfold range_start_idx. rewrite (bsearch_spec st es Hs). cbn [snd].
-    rewrite (range_end_idx_spec es en Hs).
-    pose proof (cnt_le_len (p_le en) es) as Hml. pose proof (cnt_nonneg (p_le en) es) as Hm0.
-    destruct (0 <? cnt (p_le en) es) eqn:Em.
-    - apply Z.ltb_lt in Em. rewrite Z.min_l by lia. apply (range_sel_ok es st en Hs Em).
-    - apply Z.ltb_ge in Em. assert (Hm : cnt (p_le en) es = 0) by lia.
-      (* nothing is <= en: the specification is empty *)
-      assert (Hnone : filter (in_range st en) es = []).
-      { apply filter_all_false. apply Forall_forall. intros e He. unfold in_range.
-        destruct (sid_leb (fst e) en) eqn:E; [|apply andb_false_r]. exfalso.
-        assert (In e (filter (p_le en) es)) by (apply filter_In; split; assumption).
-        unfold cnt in Hm. destruct (filter (p_le en) es); [contradiction|]. rewrite len_cons in Hm.
-        pose proof (len_nonneg l). lia. }
-      rewrite Hnone. destruct es as [|e0 es']; [reflexivity|].
-      rewrite (known_defect_cnt (e0 :: es') st en Hs ltac:(discriminate) Hm) in Hk.
-      apply Bool.negb_false_iff in Hk. apply Z.ltb_lt in Hk.
-      rewrite Z.min_l by (rewrite len_cons; pose proof (len_nonneg es'); lia).
-      replace (0 <? cnt (p_lt st) (e0 :: es')) with true by lia. reflexivity. }
-  cbn zeta in Hsel. rewrite Hsel. reflexivity.
-Qed.
-
-(** inside the class the first entry is returned although nothing is in range *)
-Theorem range_defect_shape e es st en : sorted (e :: es) ->
-  known_range_defect (e :: es) st en = true ->
-  st_range (e :: es) st en None false = [e] /\ range_spec (e :: es) st en None false = [].
-Proof.
-  intros Hs Hk. cbn [known_range_defect] in Hk. apply andb_prop in Hk as [H1 H2].
-  apply sid_ltb_lt in H1. apply sid_leb_le in H2.
-  pose proof (sorted_cons_inv _ _ Hs) as [Hs' He].
-  assert (Hm : cnt (p_le en) (e :: es) = 0).
-  { apply cnt_zero_of_gt. constructor.
-    - unfold p_le. apply sid_leb_nle. assumption.
-    - eapply Forall_impl; [|exact He]. intros y Hy. unfold p_le. apply sid_leb_nle.
-      eapply sid_lt_trans; eassumption. }
-  assert (Hsi : cnt (p_lt st) (e :: es) = 0).
-  { apply cnt_zero_of_gt. constructor.
-    - unfold p_lt. apply sid_ltb_nlt. assumption.
-    - eapply Forall_impl; [|exact He]. intros y Hy. unfold p_lt. apply sid_ltb_nlt. left.
-      eapply sid_le_lt_trans; eassumption. }
-  split.
-  - unfold st_range, range_start_idx. rewrite (bsearch_spec st _ Hs). cbn [snd].
-    rewrite (range_end_idx_spec _ en Hs), Hm, Hsi. cbn [Z.ltb Z.compare].
-    rewrite Z.min_l by (rewrite len_cons; pose proof (len_nonneg es); lia).
-    cbn [Z.ltb Z.compare take_count]. reflexivity.
-  - unfold range_spec. cbn [take_count]. apply filter_all_false. apply Forall_forall. intros y Hy.
-    unfold in_range. destruct (sid_leb (fst y) en) eqn:E; [|apply andb_false_r]. exfalso.
-    assert (In y (filter (p_le en) (e :: es))) by (apply filter_In; split; assumption).
-    unfold cnt in Hm. destruct (filter (p_le en) (e :: es)); [contradiction|]. rewrite len_cons in Hm.
-    pose proof (len_nonneg l). lia.
+  intros Hs. unfold st_range, range_spec, range_start_idx.
+  rewrite (bsearch_spec st es Hs), (range_end_excl_spec es en Hs). cbn [snd].
+  pose proof (cnt_le_len (p_le en) es) as Hml. pose proof (cnt_nonneg (p_le en) es) as Hm0.
+  destruct ((cnt (p_le en) es =? 0) || (cnt (p_le en) es <=? cnt (p_lt st) es)) eqn:E.
+  - assert (Hnone : filter (in_range st en) es = []).
+    { apply Bool.orb_true_iff in E as [E|E].
+      - apply Z.eqb_eq in E. apply filter_all_false. apply Forall_forall. intros e He. unfold in_range.
+        destruct (sid_leb (fst e) en) eqn:E2; [|apply andb_false_r]. exfalso.
+        assert (Hin : In e (filter (p_le en) es)) by (apply filter_In; split; assumption).
+        unfold cnt in E. destruct (filter (p_le en) es); [contradiction|]. rewrite len_cons in E.
+        pose proof (len_nonneg l). lia.
+      - apply Z.leb_le in E. destruct (0 <? cnt (p_le en) es) eqn:E0.
+        + apply Z.ltb_lt in E0. pose proof (range_sel_ok es st en Hs E0) as Hsel. cbn zeta in Hsel.
+          replace (cnt (p_le en) es - 1 <? cnt (p_lt st) es) with true in Hsel by lia. symmetry. exact Hsel.
+        + apply Z.ltb_ge in E0. assert (Hz : cnt (p_le en) es = 0) by lia.
+          apply filter_all_false. apply Forall_forall. intros e He. unfold in_range.
+          destruct (sid_leb (fst e) en) eqn:E2; [|apply andb_false_r]. exfalso.
+          assert (Hin : In e (filter (p_le en) es)) by (apply filter_In; split; assumption).
+          unfold cnt in Hz. destruct (filter (p_le en) es); [contradiction|]. rewrite len_cons in Hz.
+          pose proof (len_nonneg l). lia. }
+    rewrite Hnone. cbn [rev]. destruct reverse; symmetry; apply take_count_nil.
+  - apply Bool.orb_false_iff in E as [E1 E2]. apply Z.eqb_neq in E1. apply Z.leb_gt in E2.
+    assert (Hpos : 0 < cnt (p_le en) es) by lia.
+    rewrite Z.min_l by lia. pose proof (range_sel_ok es st en Hs Hpos) as Hsel. cbn zeta in Hsel.
+    rewrite Hsel. reflexivity.
 Qed.
 
 (** ------------------------------------------------------------------ *)
@@ -479,24 +428,27 @@ Proof. split; cbn; [constructor|constructor|reflexivity|reflexivity]. Qed.
 Lemma SInv_set_groups s gs : SInv s -> SInv (set_groups s gs).
 Proof. intros [H1 H2 H3 H4]. split; cbn; assumption. Qed.
 
-(** generate_next_atomic: every clock reading gives an ID above last_id, or the
-    sequence number cannot be incremented (debug build: panic) *)
+(** generate_next_atomic (repaired): every clock reading gives an ID above last_id, or
+    no ID at all when both the sequence number and the millisecond are at their maximum *)
 Lemma gen_next_gt now s id ms sq : SInv s ->
   gen_next now s = Some (id, ms, sq) -> sid_lt (s_last s) id /\ id = (ms, sq).
 Proof.
   intros Hi. unfold gen_next. rewrite (inv_atomics s Hi). destruct (s_ams s <? now) eqn:E.
-  - intros H; inversion H; subst. split; [|reflexivity]. left. cbn. lia.
-  - destruct (s_aseq s + 1 <=? u64_max); intros H; inversion H; subst. split; [|reflexivity].
-    right. cbn. lia.
+  - apply Z.ltb_lt in E. intros H; inversion H; subst. split; [|reflexivity]. left. cbn. lia.
+  - destruct (s_aseq s + 1 <=? u64_max).
+    + intros H; inversion H; subst. split; [|reflexivity]. right. cbn. lia.
+    + destruct (s_ams s + 1 <=? u64_max); intros H; inversion H; subst. split; [|reflexivity]. left. cbn. lia.
 Qed.
 Lemma gen_next_none now s :
-  gen_next now s = None <-> (now <= s_ams s /\ u64_max < s_aseq s + 1).
+  gen_next now s = None <-> (now <= s_ams s /\ u64_max < s_aseq s + 1 /\ u64_max < s_ams s + 1).
 Proof.
   unfold gen_next. destruct (s_ams s <? now) eqn:E1.
   - apply Z.ltb_lt in E1. split; [discriminate|lia].
   - apply Z.ltb_ge in E1. destruct (s_aseq s + 1 <=? u64_max) eqn:E2.
     + apply Z.leb_le in E2. split; [discriminate|lia].
-    + apply Z.leb_gt in E2. split; [lia|reflexivity].
+    + apply Z.leb_gt in E2. destruct (s_ams s + 1 <=? u64_max) eqn:E3.
+      * apply Z.leb_le in E3. split; [discriminate|lia].
+      * apply Z.leb_gt in E3. split; [lia|reflexivity].
 Qed.
 
 Lemma Forall_le_lt es a b : Forall (fun e : sentry => sid_le (fst e) a) es -> sid_lt a b ->
@@ -526,23 +478,22 @@ Proof.
   apply (Forall_le_lt _ _ _ (inv_last s Hi) Hlt).
 Qed.
 Theorem add_auto_none now s f :
-  st_add_auto now s f = None <-> (now <= s_ams s /\ u64_max < s_aseq s + 1).
+  st_add_auto now s f = None <-> (now <= s_ams s /\ u64_max < s_aseq s + 1 /\ u64_max < s_ams s + 1).
 Proof.
   rewrite <- gen_next_none. unfold st_add_auto. destruct (gen_next now s) as [[[i ms] sq]|]; split; congruence.
 Qed.
 
 (** admissibility of the reported auto ID = some clock reading produces it *)
 Theorem auto_clock_sound s oid n : auto_clock s oid = Some n ->
-  forall id ms sq, gen_next n s = Some (id, ms, sq) -> id = oid.
+  exists ms sq, gen_next n s = Some (oid, ms, sq).
 Proof.
   unfold auto_clock, gen_next. destruct oid as [o1 o2]. cbn [fst snd].
   destruct ((s_ams s <? o1) && (o2 =? 0)) eqn:E1.
   - apply andb_prop in E1 as [Ea Eb]. intros H; inversion H; subst. rewrite Ea.
-    apply Z.eqb_eq in Eb. subst. intros id ms sq H2; inversion H2; reflexivity.
-  - destruct ((o1 =? s_ams s) && (o2 =? s_aseq s + 1)) eqn:E2; [|discriminate].
-    apply andb_prop in E2 as [Ea Eb]. apply Z.eqb_eq in Ea, Eb. intros H; inversion H; subst.
-    rewrite Z.ltb_irrefl. intros id ms sq.
-    destruct (s_aseq s + 1 <=? u64_max); [|discriminate]. intros H2; inversion H2; reflexivity.
+    apply Z.eqb_eq in Eb. subst. eauto.
+  - destruct ((o1 =? s_ams s) && (o2 =? s_aseq s + 1) && (s_aseq s + 1 <=? u64_max)) eqn:E2; [|discriminate].
+    apply andb_prop in E2 as [E2 Ec]. apply andb_prop in E2 as [Ea Eb]. apply Z.eqb_eq in Ea, Eb.
+    intros H; inversion H; subst. rewrite Z.ltb_irrefl, Ec. eauto.
 Qed.
 
 Theorem auto_clock_complete s now id ms sq : gen_next now s = Some (id, ms, sq) ->
@@ -550,9 +501,13 @@ Theorem auto_clock_complete s now id ms sq : gen_next now s = Some (id, ms, sq) 
 Proof.
   unfold gen_next, auto_clock. destruct (s_ams s <? now) eqn:E.
   - intros H. injection H as <- <- <-. cbn [fst snd]. rewrite E. cbn [Z.eqb andb]. exists now. rewrite E. auto.
-  - destruct (s_aseq s + 1 <=? u64_max) eqn:E2; [|discriminate]. intros H. injection H as <- <- <-. cbn [fst snd].
-    rewrite Z.ltb_irrefl. cbn [andb]. rewrite !Z.eqb_refl. cbn [andb]. exists (s_ams s).
-    rewrite Z.ltb_irrefl. auto.
+  - destruct (s_aseq s + 1 <=? u64_max) eqn:E2.
+    + intros H. injection H as <- <- <-. cbn [fst snd].
+      rewrite Z.ltb_irrefl. cbn [andb]. rewrite !Z.eqb_refl. cbn [andb]. exists (s_ams s).
+      rewrite Z.ltb_irrefl. auto.
+    + destruct (s_ams s + 1 <=? u64_max) eqn:E3; [|discriminate]. intros H. injection H as <- <- <-. cbn [fst snd].
+      assert (Hlt : s_ams s <? s_ams s + 1 = true) by (apply Z.ltb_lt; lia).
+      rewrite Hlt. cbn [Z.eqb andb]. exists (s_ams s + 1). rewrite Hlt. auto.
 Qed.
 
 Theorem add_with_id_refused s id f : sid_le id (s_last s) -> st_add_with_id s id f = None.
@@ -803,3 +758,15 @@ Fixpoint run_cmds (now : Z) (d : db) (cs : list (list frame)) : list frame * db 
       end
   end.
 Definition bulk (s : String.string) : frame := FBulk (bs s).
+
+(** XADD * is refused only when no greater u64 ID exists *)
+Definition in_u64 (i : sid) : Prop := 0 <= fst i <= u64_max /\ 0 <= snd i <= u64_max.
+Theorem add_auto_refused_exhausted now s f : SInv s -> in_u64 (s_last s) -> st_add_auto now s f = None ->
+  s_last s = (u64_max, u64_max) /\ forall id, in_u64 id -> sid_le id (s_last s).
+Proof.
+  intros Hi [H1 H2] Hn. apply add_auto_none in Hn as (Ha & Hb & Hc).
+  rewrite (inv_atomics s Hi) in *. cbn [fst snd] in *.
+  assert (s_ams s = u64_max) by lia. assert (s_aseq s = u64_max) by lia.
+  split; [congruence|]. intros [i1 i2] [[? ?] [? ?]]. cbn [fst snd] in *. unfold sid_le, sid_lt. cbn [fst snd].
+  destruct (Z.eq_dec i1 (s_ams s)); destruct (Z.eq_dec i2 (s_aseq s)); subst; try (left; lia). right; reflexivity.
+Qed.
